@@ -1,5 +1,5 @@
 (* extraction of the C15 model: ExtrOcamlBasic only (bool, option, unit, list, prod, sumbool mapped); Z, positive, nat stay inductive *)
-Require Import GeosV.C15.STRDefs.
+Require Import GeosV.C15.STRDefs GeosV.C15.ITVDefs.
 Require Extraction.
 Require Import ExtrOcamlBasic.
-Extraction "xc15.ml" run_top treeSize sliceCount sliceCapacity level_parents.
+Extraction "xc15.ml" run_top treeSize sliceCount sliceCapacity level_parents itv_run.
